@@ -58,6 +58,9 @@ impl<T: Sized> Drop for JoinHandle<T> {
                 // The thread got its work done first, we need to wait for it to exit, signalled
                 // by the OS through the futex, then we know we have exclusive access to the memory.
                 futex_wait_fast(self.tsm.get_futex(), UNFINISHED);
+                // Nobody joined the thread, its return value (if it got to produce one) was never
+                // taken out: drop it before freeing the memory it lives in.
+                core::ptr::drop_in_place(self.tsm.value_mut::<T>());
                 self.tsm.dealloc();
             }
         }
@@ -296,6 +299,8 @@ where
                 // the kernel will try to update the value, and futex_wake on it, which will
                 // cause a segfault.
                 sc::syscall!(SET_TID_ADDRESS, 0);
+                // Nobody will ever read the return value, drop it before freeing its memory.
+                core::ptr::drop_in_place(tsm.value_mut::<T>());
                 tsm.dealloc();
             }
             // Also dealloc the local storage for this thread, nobody needs that anymore
